@@ -1,3 +1,6 @@
 # --- C01 coarse-grained mapping: CGEngine::LoadMoleculeType/CreateCGTopology + TopologyMap::Apply
 # (see drivers/cgmap.cc)
 verif_driver(drv_cgmap ${D}/cgmap.cc)
+# executable-level: a minimal threaded CsgApplication with mapping that dumps what every worker
+# evaluates (see drivers/cgapp.cc)
+verif_driver(drv_cgapp ${D}/cgapp.cc)
